@@ -203,8 +203,12 @@ def run_c09(spec: Dict[str, Any]) -> "tuple[List[Violation], Dict[str, Any]]":
             if bm.task_id in ids_seen:
                 v.append(Violation("task-id-reused", f"op {i}: task id {bm.task_id} already used by another send"))
             ids_seen.add(bm.task_id)
-            dm = broker.formatter.loads(bm.message)
-            dm.parse_labels()
+            try:
+                dm = broker.formatter.loads(bm.message)
+                dm.parse_labels()
+            except Exception as exc:  # noqa: BLE001
+                v.append(Violation("sent-message-unparsable", f"op {i} ({op['kind']}): the message sent with labels {jsonable(expect)} cannot be decoded: {exc!r}"))
+                continue
             if not labels_eq(dict(dm.labels), expect):
                 kind = "kicker-labels-leak" if not labels_eq(task.labels, before) or set(dm.labels) - set(expect) else "send-labels-wrong"
                 v.append(Violation(kind, f"op {i} ({op['kind']}): message carries labels {jsonable(dict(dm.labels))}, expected declared+own overrides {jsonable(expect)}"))
@@ -265,6 +269,13 @@ def run_c09(spec: Dict[str, Any]) -> "tuple[List[Violation], Dict[str, Any]]":
 
     try:
         run_virtual(main)
+    except Exception as exc:  # noqa: BLE001  taskiq code raised where the property allows no failure
+        import traceback
+
+        tb = "".join(traceback.format_exception(exc))
+        if "/mon/" in tb.splitlines()[-2] if len(tb.splitlines()) > 1 else False:
+            raise
+        v.append(Violation("unexpected-exception", f"{type(exc).__name__}: {exc} :: {tb[-600:]}"))
     finally:
         executor.shutdown(wait=False)
     return v, obs
